@@ -59,14 +59,27 @@ pub fn unhex(s: &str) -> Vec<u8> {
     v
 }
 
-/// Install a panic hook that stays silent (panics are captured and reported as verdicts).
+thread_local! {
+    static GUARD_DEPTH: std::cell::Cell<u32> = const { std::cell::Cell::new(0) };
+}
+
+/// Install a panic hook that stays silent for panics inside `guarded` (those are captured and
+/// reported as verdicts) and reports any other panic as a machinery error.
 pub fn silence_panics() {
-    std::panic::set_hook(Box::new(|_| {}));
+    std::panic::set_hook(Box::new(|info| {
+        let inside = GUARD_DEPTH.try_with(|d| d.get() > 0).unwrap_or(false);
+        if !inside {
+            eprintln!("MACHINERY-ERROR: the harness itself panicked: {}", info);
+        }
+    }));
 }
 
 /// Runs `f`, converting a panic into `Err(message)`.
 pub fn guarded<T, F: FnOnce() -> T>(f: F) -> Result<T, String> {
-    match catch_unwind(AssertUnwindSafe(f)) {
+    GUARD_DEPTH.with(|d| d.set(d.get() + 1));
+    let r = catch_unwind(AssertUnwindSafe(f));
+    GUARD_DEPTH.with(|d| d.set(d.get().saturating_sub(1)));
+    match r {
         Ok(v) => Ok(v),
         Err(e) => {
             let msg = if let Some(s) = e.downcast_ref::<&str>() {
